@@ -117,6 +117,12 @@ def run(ctx):
                 bdst = next((e.get('fdpath') for e in o0.res.trace if e['sys'] == 'copy_file_range' and (e.get('fdpath') or '').endswith('/sub/b')), None)
                 if bdst:
                     plans.append(('dataCopy', [f'clamp copy_file_range ={bdst} 0 1 700', f'failo copy_file_range ={bdst} 700 1 {E["ENOSPC"]}'], 'short+ENOSPC'))
+                # a failure that PERSISTS (every attempt to create one destination file fails: descriptor exhaustion, a read-only
+                # directory): retries, if any, must end in an error, not in silence
+                cdst = [e.get('path') for e in o0.res.trace if site_of(e, o0.root, False) == 'createDst' and e.get('path') and ' ' not in e.get('path')]
+                for cp in cdst[:2]:
+                    for en in ('EMFILE', 'EACCES'):
+                        plans.append(('createDst', [f'fail openat ={cp} * {E[en]}'], en + '-persistent'))
                 # existence probes of the destination (finding F12): statx of DEST by main / the walker
                 if ctx.quick and variant == 'into':
                     plans = []          # quick: this variant only serves the destination probes
@@ -174,6 +180,22 @@ def run(ctx):
                         ctx.violation(f'{driver}-{variant}-{site}-{en}-corr.json', dict(driver=driver, variant=variant, site=site, plan=plan, model=m, exit=cls, stderr=err,
                                                                                         correspondence='exit class under a single injected failure vs Xcp.Errs.exitNonZero', theorems=['Xcp.C04.no_silent_failure_partial']),
                                       f'model predicts exit {pred}, implementation exit {obs} for a failing {site} ({plan})', no_input=True)
+        # ---- extent mapping refused (EOPNOTSUPP: tmpfs, FUSE, network file systems) for a sparse source under the block driver:
+        # the documented fall-back is to copy the whole file — exit 0 means the bytes are there
+        import filecmp, shutil
+        from .. import fsutil
+        for i in range(2 if ctx.quick else 10):
+            d = base + '/sparse'; shutil.rmtree(d, ignore_errors=True); os.makedirs(d)
+            fsutil.make_file(d + '/src.bin', 8 << 20, [(0, 300000), (3 << 20, (3 << 20) + 70000)], seed=40 + i)
+            for plan in (['fail ioctl fiemap * %d' % E['EOPNOTSUPP']], ['fail ioctl fiemap 1 %d' % E['EOPNOTSUPP']]):
+                try: os.unlink(d + '/dst.bin')
+                except OSError: pass
+                r = scen.run_xcp(d, ['--driver', 'parblock', '--workers', str(rng.choice([1, 4])), '--block-size', rng.choice(['65536', '1MB']), 'src.bin', 'dst.bin'], plan=plan, timeout=60)
+                fired = any(e.get('inj') for e in r.trace)
+                ctx.count(f'fiemap_refused.{"fired" if fired else "not_fired"}.{r.cls}'); ctx.case(('fiemap-refused', i, tuple(plan)), fired)
+                if r.cls == '0' and not (os.path.exists(d + '/dst.bin') and filecmp.cmp(d + '/src.bin', d + '/dst.bin', shallow=False)):
+                    ctx.violation(f'fiemap-refused-{i}.json', dict(plan=plan, exit=r.cls, stderr=r.stderr[-300:]),
+                                  f'C04: extent mapping was refused ({plan}) and xcp exited 0, but the destination is not a copy of the sparse source')
     ctx.cov['sites_where_a_fault_fired'] = sites_hit
     ctx.cov['rule'] = ('a tree with files (one multi-block), a nested directory, a link and a fifo, copied fresh / over an existing copy (thorough: into a directory, with --ownership), --fsync; '
                        'for every call of the unfaulted trace that is a step: one run per errno (quick: 2 random of 7) with that call failing; plus the destination probe; thorough adds pairs. '
